@@ -39,6 +39,7 @@ type c04Msg struct {
 
 type c04Tracker struct {
 	seenPtr map[uintptr]bool
+	pin     [][]byte // keeps every seen buffer alive so its address is never recycled
 }
 
 // poll asks the delegate once and returns the contents of queue entries not seen before.
@@ -51,6 +52,7 @@ func (tr *c04Tracker) poll(nd *cluster.Node) [][]byte {
 		p := uintptr(unsafe.Pointer(&m[0]))
 		if !tr.seenPtr[p] {
 			tr.seenPtr[p] = true
+			tr.pin = append(tr.pin, m)
 			fresh = append(fresh, m)
 		}
 	}
